@@ -83,6 +83,7 @@ where
 					self.parser.reader_mut().trim_to_offset(offset);
 					self.current_document_kind = None;
 					if let Some(doc) = self.last_document.take() {
+						vhit!(CHUNKER_DOCUMENT_EMITTED);
 						return Some(Ok(doc));
 					}
 				}
@@ -109,6 +110,25 @@ where
 			};
 		}
 	}
+}
+
+/// Verification hook: see [`crate::verif::yaml_events_then_drop`].
+#[cfg(feature = "verif")]
+pub(super) fn verif_events_then_drop<R: Read>(reader: R, max_events: usize) -> (usize, bool) {
+	let mut parser = Parser::new(reader);
+	let mut events = 0;
+	while events < max_events {
+		match parser.next_event() {
+			Ok(event) => {
+				events += 1;
+				if event.event_type() == YAML_STREAM_END_EVENT {
+					break;
+				}
+			}
+			Err(_) => return (events, true),
+		}
+	}
+	(events, false)
 }
 
 /// A UTF-8 encoded YAML document.
